@@ -1,0 +1,34 @@
+// Copyright © 2026 Meroxa, Inc.
+//
+// Licensed under the Apache License, Version 2.0 (the "License");
+// you may not use this file except in compliance with the License.
+// You may obtain a copy of the License at
+//
+//     http://www.apache.org/licenses/LICENSE-2.0
+//
+// Unless required by applicable law or agreed to in writing, software
+// distributed under the License is distributed on an "AS IS" BASIS,
+// WITHOUT WARRANTIES OR CONDITIONS OF ANY KIND, either express or implied.
+// See the License for the specific language governing permissions and
+// limitations under the License.
+
+//go:build verif
+
+package pipeline
+
+import "sort"
+
+// VerifReservedNames returns a sorted copy of the service's in-memory index of
+// reserved pipeline names. Read-only observation hook for runtime verification
+// harnesses; compiled only with -tags verif. Like the rest of the service it
+// must not be called concurrently with a mutating call.
+func (s *Service) VerifReservedNames() []string {
+	names := make([]string, 0, len(s.instanceNames))
+	for n, ok := range s.instanceNames {
+		if ok {
+			names = append(names, n)
+		}
+	}
+	sort.Strings(names)
+	return names
+}
